@@ -273,6 +273,19 @@ def val_compose_anc(ctx: Ctx) -> RuleResult:
     asg = [n for n in iter_own_nodes(f.node) if isinstance(n, (ast.Assign, ast.AnnAssign))
            and dotted(n.targets[0] if isinstance(n, ast.Assign) else n.target) == setname]
     r.require(len(asg) == 1, f"definition of {setname} not found")
+    # the set the inputs are compared with is complete BEFORE the first comparison: not grown by the loop that tests it
+    test_loop = next((lp for lp in iter_own_nodes(f.node) if isinstance(lp, (ast.For, ast.While)) and any(st is x for x in own_walk(lp))), None)
+    if test_loop is not None:
+        grown = [x for x in own_walk(test_loop)
+                 if (isinstance(x, ast.AugAssign) and dotted(x.target) == setname)
+                 or (isinstance(x, ast.Call) and isinstance(x.func, ast.Attribute) and x.func.attr in ("update", "add") and dotted(x.func.value) == setname)
+                 or (isinstance(x, ast.Assign) and dotted(x.targets[0]) == setname)]
+        r.ob(not grown, {"closure complete before the loop that tests it": not grown})
+        if grown:
+            r.violate("BaseDAG.compose: 'input depends on input' is tested against a set that the same loop is still filling", f.loc(grown[0]),
+                      "the answer depends on the order in which the inputs are listed: [a, b] with a -> b is refused, [b, a] is accepted and "
+                      "the supplied upstream value is silently ignored", norm_src(grown[0]))
+            return r
     v = asg[0].value
     src = norm_src(v)
     closure = any(isinstance(n, ast.Call) and (dotted(n.func) or "").split(".")[-1] in ("ancestors_of_iter", "ancestors") for n in ast.walk(v))
@@ -509,7 +522,66 @@ def val_compose_overlap(ctx: Ctx) -> RuleResult:
     return r
 
 
+SCHED_ATTRS = ("priority", "is_sequential", "resource", "debug", "setup", "active", "args", "kwargs", "unpack_to", "tag")
+
+
+def val_postinit(ctx: Ctx) -> RuleResult:
+    """ExecNode.__post_init__ validates what the user declared; it never rewrites a scheduling attribute."""
+    r = RuleResult("VAL-POSTINIT")
+    f = ctx.method("ExecNode", "__post_init__")
+    writes = []
+    for n in iter_own_nodes(f.node):
+        if isinstance(n, ast.Call) and dotted(n.func) in ("object.__setattr__", "setattr") and len(n.args) == 3 and dotted(n.args[0]) == "self":
+            k = n.args[1].value if isinstance(n.args[1], ast.Constant) else None
+            if k is None:
+                raise Undecided(f"{f.short}: attribute written under a computed name: {norm_src(n)[:80]}")
+            writes.append((k, n))
+        elif isinstance(n, (ast.Assign, ast.AugAssign)):
+            for t in (n.targets if isinstance(n, ast.Assign) else [n.target]):
+                if isinstance(t, ast.Attribute) and dotted(t.value) == "self":
+                    writes.append((t.attr, n))
+    r.require(len(writes) >= 1, "no attribute normalisation found in __post_init__ (expected at least the id)")
+    for k, n in writes:
+        ok = k not in SCHED_ATTRS
+        r.ob(ok, {"__post_init__ writes": k})
+        if not ok:
+            r.violate(f"{f.short}: rewrites the declared '{k}'", f.loc(n),
+                      f"the scheduler (and re-configuration, and the nested-DAG splice, which all rebuild nodes through this constructor) "
+                      f"then sees another '{k}' than the one declared: e.g. a sequential main-thread node no longer drains the pool "
+                      f"before it runs", norm_src(n)[:120])
+    return r
+
+
+def val_confatomic(ctx: Ctx) -> RuleResult:
+    """config_from_dict refuses an ambiguous configuration (two entries for one node) BEFORE it applies any entry."""
+    r = RuleResult("VAL-CONFATOMIC")
+    f = ctx.method("BaseDAG", "config_from_dict")
+    loops = [lp for lp in iter_own_nodes(f.node) if isinstance(lp, ast.For)
+             and any(isinstance(x, ast.Call) and isinstance(x.func, ast.Attribute) and x.func.attr in ("force_set", "__setitem__") for x in own_walk(lp))]
+    r.require(len(loops) == 1, "config_from_dict: the loop applying the entries not found")
+    lp = loops[0]
+    inner = [x for x in own_walk(lp) if isinstance(x, ast.Raise)]
+    dup_before = []
+    for st in iter_own_nodes(f.node):
+        if isinstance(st, ast.Expr) and isinstance(st.value, ast.Call) and st.lineno < lp.lineno:
+            q = next((q for c, q in ctx.calls_in(f) if c is st.value), None)
+            if q in ctx.P.funcs and any(isinstance(x, ast.Raise) for x in iter_own_nodes(ctx.P.funcs[q].node)):
+                dup_before.append(st)
+    r.ob(bool(dup_before) and not inner, {"validated before the first entry is applied": [norm_src(x)[:60] for x in dup_before],
+                                          "refusals inside the applying loop": len(inner)})
+    if inner:
+        r.violate("BaseDAG.config_from_dict: a configuration is refused after earlier entries have been applied", f.loc(inner[0]),
+                  "a caller that catches the ValueError keeps a DAG in which part of the refused configuration is active (is_sequential "
+                  "at once, priorities at the next rebuild): later calls no longer behave like those of a freshly built DAG",
+                  norm_src(inner[0])[:100])
+    elif not dup_before:
+        r.violate("BaseDAG.config_from_dict: two entries for one node are not refused", f.loc(lp),
+                  "ambiguous configuration must raise ValueError (which of the two wins would depend on dict order)", None)
+    return r
+
+
 RULES = {
+    "VAL-POSTINIT": val_postinit, "VAL-CONFATOMIC": val_confatomic,
     "VAL-COMPOSE-OVERLAP": val_compose_overlap,
     "VAL-SYNTHSEQ": val_synthseq,
     "VAL-MAXC": val_maxc, "VAL-DEBUGDEP": val_debugdep, "VAL-SETUPDEP": val_setupdep, "VAL-SETUPARG": val_setuparg,
